@@ -625,3 +625,12 @@ _R8 = {
 }
 for _p, _ms in _R8.items():
     MUTANTS.setdefault(_p, []).extend(_ms)
+
+_R8B = {
+    "C17": [mut("server-truncates-ledger", "the MCP server cuts the parsed ledger before calculating",
+                [(SERVER, "        let transactions = self.parse_input(input)?;\n", "        let mut transactions = self.parse_input(input)?;\n        transactions.truncate(1000);\n")], ["R12:"])],
+    "C20": [mut("server-truncates-ledger", "the MCP server cuts the parsed ledger before calculating",
+                [(SERVER, "        let transactions = self.parse_input(input)?;\n", "        let mut transactions = self.parse_input(input)?;\n        transactions.truncate(1000);\n")], ["R4:"])],
+}
+for _p, _ms in _R8B.items():
+    MUTANTS.setdefault(_p, []).extend(_ms)
